@@ -516,6 +516,7 @@ theorem nintDistCore_spec (re : Mpf) (hs : re.sign ≤ 1) (hodd : re.man % 2 = 1
       DistOf D (max |val re - n| v) := by
   have hm : re.man ≠ 0 := by omega
   unfold nintDistCore
+  rw [if_neg (fun h => hm h.1)]
   simp only
   split
   · rename_i hmag
